@@ -6,7 +6,7 @@ EV=/tmp/ev/coqchk
 rm -rf $EV; mkdir -p $EV /verif/audit
 rsync -a --exclude .git --exclude .work --exclude 'replays/*' --exclude 'coq/Cases' /verif/ $EV/verif/
 cd $EV/verif/coq
-/venv/bin/python ../tools/py2coq/gen_all.py /repo $EV/verif/coq/Gen >/dev/null
+PYTHONPATH=$EV/verif/tools /venv/bin/python -m py2coq.gen_all /repo $EV/verif/coq/Gen >/dev/null
 coq_makefile -f _CoqProject -o Makefile >/dev/null && make -j8 >/dev/null 2>&1 || { echo "library build failed"; exit 1; }
 mods=""
 for f in Props/C*.v Props/Tie/*.v; do
